@@ -320,9 +320,13 @@ type vfC14SeqCase struct {
 	Relays int         `json:"relays"`
 	Acts   []vfC05Act  `json:"acts"`
 	Binary bool        `json:"binary"`
+	Windows bool       `json:"client_windows,omitempty"` // the client is affected by Windows: it asks for "!\n" line ends from the server
 }
 
 func vfC14SeqRun(cs vfC14SeqCase) string {
+	oldWin := windowsEnvironment
+	SetAffectedByWindows(cs.Windows)
+	defer SetAffectedByWindows(oldWin)
 	base, err := os.MkdirTemp("", "vfc14")
 	if err != nil {
 		return "mkdtemp: " + err.Error()
@@ -406,6 +410,7 @@ func vfGenC14Seq(rt *rapid.T) vfC14SeqCase {
 			Upload: rapid.Bool().Draw(rt, "upload")})
 	}
 	cs.Acts = append(cs.Acts, vfC05Act{Kind: "transfer", Outcome: "succeeded", Upload: rapid.Bool().Draw(rt, "lastupload")})
+	cs.Windows = rapid.IntRange(0, 3).Draw(rt, "client_windows") == 0
 	return cs
 }
 
@@ -422,6 +427,9 @@ func TestVF_C14Seq(t *testing.T) {
 			}
 		}
 		labels := []string{"e2e_sequence", fmt.Sprintf("relay_hops_%d", cs.Relays)}
+		if cs.Windows {
+			labels = append(labels, "client_affected_by_windows")
+		}
 		if cs.Tunnel {
 			labels = append(labels, "through_the_relay_tunnel")
 		}
